@@ -38,18 +38,27 @@ pub struct SqlScenario {
     /// C18/C05: non-equi joins with a single probe partition and a left side of many small
     /// batches under small limits (the multi-chunk spill fallback of NestedLoopJoinExec)
     pub nlj_focus: bool,
+    /// C18/C08: sorts whose memory limit sits in the range where runs are spilled and the merge can
+    /// barely be seated (large batch size, few partitions, small merge fan-in): multi-level merges,
+    /// re-spilling of skewed runs, merges that fail half-way
+    pub tight_sort: bool,
 }
 
 fn gen_table(rng: &mut Rng, tier: Tier, small: bool) -> Value {
     let big = tier == Tier::Thorough;
+    // a quarter of the tables are sorted by (k NULLS FIRST, id) within every partition and say so:
+    // ordered/partially ordered aggregation, partial sorts, sort-preserving merges and sort-merge
+    // joins without a sort below them
+    let sorted = rng.chance(1, 4);
     let tg = TableGen {
         parts: (1, 4),
         batches: (0, if small { 3 } else if big { 6 } else { 4 }),
         rows: (0, if small { 4 } else if big { 16 } else { 8 }),
         key_domain: *rng.pick(&[2i64, 4, 6, 12]),
+        sorted_by_k: sorted,
         ..Default::default()
     };
-    json!({"parts": tg.generate(rng), "sorted": false, "view": rng.chance(1, 3)})
+    json!({"parts": tg.generate(rng), "sorted": sorted, "view": rng.chance(1, 3)})
 }
 
 /// Inserts one fault step ("err" or "panic") at a random position of a random partition.
@@ -78,9 +87,7 @@ impl Scenario for SqlScenario {
         if self.need_reference {
             // families Join/Agg/Sort all have references; Any may produce others: re-draw
             let mut guard = 0;
-            while !matches!(q["t"].as_str().unwrap_or(""), "join" | "nlj" | "cross" | "notin" | "groupby" | "groupby_filter" | "global" | "distinct" | "topk_agg" | "sort" | "sort1")
-                && guard < 20
-            {
+            while !queries::has_reference(&q) && guard < 20 {
                 q = queries::generate(rng, self.family);
                 guard += 1;
             }
@@ -88,7 +95,7 @@ impl Scenario for SqlScenario {
         if self.nlj_focus {
             q = json!({"t": "nlj", "jt": *rng.pick(&["inner", "left", "right", "full", "semi", "anti", "rsemi", "ranti"])});
         }
-        let small = matches!(q["t"].as_str().unwrap_or(""), "cross" | "nlj");
+        let small = queries::needs_small_tables(&q);
         let mut a = gen_table(rng, tier, small);
         let mut b = gen_table(rng, tier, small);
         if self.nlj_focus {
@@ -100,7 +107,12 @@ impl Scenario for SqlScenario {
         let pressure = matches!(self.mode, Mode::Pressure) || (self.mode != Mode::Fault && rng.chance(1, 3));
         let mut env = EnvSpec::generate(rng, pressure);
         if self.mode == Mode::Pressure && env["pool"]["kind"] == json!("unbounded") {
-            env["pool"] = json!({"kind": *rng.pick(&["greedy", "fair"]), "limit": *rng.pick(&[0u64, 500, 2_000, 8_000, 30_000, 200_000]), "neighbour": []});
+            let limit = match rng.below(3) {
+                0 => rng.below(8_000),
+                1 => rng.below(40_000),
+                _ => *rng.pick(&[0u64, 500, 2_000, 8_000, 30_000, 200_000]),
+            };
+            env["pool"] = json!({"kind": *rng.pick(&["greedy", "fair"]), "limit": limit, "neighbour": []});
         }
         let mut drop_after = Value::Null;
         match self.mode {
@@ -127,6 +139,15 @@ impl Scenario for SqlScenario {
             _ => {}
         }
         let mut knobs = sqlsim::generate_cfg(rng);
+        if self.tight_sort {
+            let tg = TableGen { parts: (1, 3), batches: (2, 6), rows: (3, 16), key_domain: 6, ..Default::default() };
+            a = json!({"parts": tg.generate(rng), "sorted": false, "view": rng.chance(1, 3)});
+            knobs["datafusion.execution.target_partitions"] = json!(*rng.pick(&[1u64, 1, 2]));
+            env["batch_size"] = json!(*rng.pick(&[16u64, 64, 8192]));
+            env["merge_fan_in"] = json!(*rng.pick(&[0u64, 2, 2, 3]));
+            env["sort_spill_reservation"] = json!(*rng.pick(&[0u64, 0, 64, 1024]));
+            env["pool"] = json!({"kind": *rng.pick(&["greedy", "fair"]), "limit": rng.range(600, 9_000), "neighbour": []});
+        }
         if self.nlj_focus {
             knobs["datafusion.execution.target_partitions"] = json!(1);
             env["pool"] = json!({"kind": *rng.pick(&["greedy", "fair"]), "limit": *rng.pick(&[0u64, 50, 100, 200, 400, 800, 3000]), "neighbour": []});
@@ -182,11 +203,13 @@ async fn run(case: Value, mode: Mode) -> Outcome {
     let consume = if case["consume"].as_str() == Some("partitions") { Consume::Partitions } else { Consume::Stream };
     let drop_after = case["drop_after"].as_u64();
     let concurrent = case["concurrent"].as_u64().unwrap_or(1).clamp(1, 4);
-    let ordered = queries::ordered(q);
+    let mode_cmp = queries::compare_mode(q);
+    let ordered = mode_cmp == queries::Compare::Sequence;
 
     // expected rows: independent reference if the template has one, else the baseline configuration
     let a_rows = sqlsim::rows_of(&tables, "a");
     let b_rows = sqlsim::rows_of(&tables, "b");
+    let universe: Option<Vec<Cells>> = queries::universe(q, &a_rows, &b_rows);
     let expected: Vec<Cells> = match queries::reference(q, &a_rows, &b_rows) {
         Some(r) => {
             sim::probe("probe.oracle_reference");
@@ -207,15 +230,30 @@ async fn run(case: Value, mode: Mode) -> Outcome {
 
     // run the query (possibly several copies concurrently in one session)
     let mut runs: Vec<std::result::Result<Executed, String>> = vec![];
+    // plans are made first and kept outside the unwinding boundary, so that a run that panics can
+    // still be classified by the plan it executed
+    let mut planned: Vec<std::sync::Arc<dyn datafusion_physical_plan::ExecutionPlan>> = vec![];
     if concurrent == 1 {
-        let r = AssertUnwindSafe(sqlsim::execute_sql(&sess.ctx, &sql, consume, drop_after)).catch_unwind().await;
-        runs.push(r.map_err(|p| panic_text(&p)));
+        match AssertUnwindSafe(sqlsim::plan_sql(&sess.ctx, &sql)).catch_unwind().await {
+            Err(p) => runs.push(Err(format!("planning panicked: {}", panic_text(&p)))),
+            Ok(Err(e)) => runs.push(Ok(Executed { result: Err(e), plan: None, dropped_early: false, batches_seen: 0 })),
+            Ok(Ok(plan)) => {
+                planned.push(std::sync::Arc::clone(&plan));
+                let r = AssertUnwindSafe(sqlsim::execute_plan(&sess.ctx, plan, consume, drop_after)).catch_unwind().await;
+                runs.push(r.map_err(|p| panic_text(&p)));
+            }
+        }
     } else {
         let mut hs = vec![];
         for _ in 0..concurrent {
             let ctx = sess.ctx.clone();
-            let sql = sql.clone();
-            hs.push(SpawnedTask::spawn(async move { sqlsim::execute_sql(&ctx, &sql, consume, None).await }));
+            match sqlsim::plan_sql(&ctx, &sql).await {
+                Err(e) => runs.push(Ok(Executed { result: Err(e), plan: None, dropped_early: false, batches_seen: 0 })),
+                Ok(plan) => {
+                    planned.push(std::sync::Arc::clone(&plan));
+                    hs.push(SpawnedTask::spawn(async move { sqlsim::execute_plan(&ctx, plan, consume, None).await }));
+                }
+            }
         }
         for h in hs {
             match h.join().await {
@@ -244,7 +282,12 @@ async fn run(case: Value, mode: Mode) -> Outcome {
                     // partitions that wait for the same (panicked) build side
                     sim::probe("probe.injected_panic_resurfaced");
                 } else {
-                    return violation("panic", format!("query panicked: {p}"));
+                    let notes = sim::panic_notes();
+                    // known finding: the NLJ fallback executes its left child twice
+                    if bounded_pool && notes.iter().any(|n| n.contains("partition not used yet")) && planned.iter().any(sqlsim::nlj_left_reexecution_shape) {
+                        sim::set_tag("nlj-fallback-left-reexecution");
+                    }
+                    return violation("panic", format!("query panicked: {p}; panics raised: {notes:?}"));
                 }
             }
             Ok(ex) => match &ex.result {
@@ -256,6 +299,10 @@ async fn run(case: Value, mode: Mode) -> Outcome {
                         sim::probe("probe.resources_exhausted_run");
                     } else if mode == Mode::Fault && fault_fired {
                         sim::probe("probe.error_surfaced");
+                    } else if matches!(e.find_root(), datafusion_common::DataFusionError::NotImplemented(_)) && q.get("kt").is_some() {
+                        // a type variant the chosen operator does not support (e.g. dictionary keys in
+                        // the sort-merge join comparator): a documented gap, not a wrong result
+                        sim::probe("probe.type_variant_not_implemented");
                     } else {
                         return violation("unexpected-error", format!("`{sql}` failed: {text}"));
                     }
@@ -265,8 +312,9 @@ async fn run(case: Value, mode: Mode) -> Outcome {
                         sim::probe("probe.dropped_early");
                         // a prefix was read: every row seen must at least belong to the result
                         if !ordered {
+                            let pool = universe.as_ref().unwrap_or(&expected);
                             for r in rows {
-                                if !expected.contains(r) {
+                                if !pool.contains(r) {
                                     if let Some(t) = nlj_fallback {
                                         sim::set_tag(t);
                                     }
@@ -274,7 +322,7 @@ async fn run(case: Value, mode: Mode) -> Outcome {
                                 }
                             }
                         }
-                    } else if let Some(diff) = sqlsim::compare(rows, &expected, ordered) {
+                    } else if let Some(diff) = sqlsim::compare_with(rows, &expected, &mode_cmp, universe.as_deref()) {
                         if let Some(t) = nlj_fallback {
                             sim::set_tag(t);
                         }
@@ -307,6 +355,7 @@ async fn run(case: Value, mode: Mode) -> Outcome {
         }
     }
     drop(plans);
+    drop(planned);
     drop(runs);
     let SqlParts { env: cx, tables: stats } = SqlParts::from(sess);
     tokio::time::sleep(std::time::Duration::from_secs(10)).await;
